@@ -359,6 +359,7 @@ struct Stats {
     reclaimed: usize,
     select_steps: usize,
     filter_calls: usize, // select_state.receiving was set by a step
+    preempted: usize,    // a select completed through another source while a filter's message was held
     max_slots: usize,
     orphan_slots: usize,
     orphan_spawn: usize, // of which: first seen right after a spawn_process with a non-empty heap bundle (F46)
@@ -584,7 +585,35 @@ impl Sim {
     }
 
     /// worker.rs handle_action (322): the executor's routing request becomes an event
+    /// "no live value refers to a reclaimed slot": the values carried by a routing request that has
+    /// just left `step` are live (the worker is about to extract them)
+    fn in_flight_live(&self, e: usize, vs: &[&Value], what: &str) -> Result<(), String> {
+        let d = self.ex[e].verif_dump();
+        let mut m = BTreeMap::new();
+        for v in vs {
+            occ(v, &mut m, 1);
+        }
+        for i in m.keys() {
+            if *i >= d.freed.len() || d.freed[*i] {
+                return Err(format!(
+                    "use-after-free: the {} request leaving step() on executor {} carries heap slot {} which is already reclaimed ({} slots referenced by the payload)",
+                    what, e, i, m.len()
+                ));
+            }
+        }
+        Ok(())
+    }
+
     fn handle_action(&mut self, e: usize, action: Action<TestEffect>) -> Result<(), String> {
+        match &action {
+            Action::Spawn { captures, argument, .. } => {
+                let mut vs: Vec<&Value> = captures.iter().collect();
+                vs.push(argument);
+                self.in_flight_live(e, &vs, "Spawn")?;
+            }
+            Action::Deliver { value, .. } => self.in_flight_live(e, &[value], "Deliver")?,
+            _ => {}
+        }
         match action {
             Action::Spawn { caller, function_index, captures, argument } => {
                 let n = captures.len();
@@ -854,6 +883,15 @@ impl Sim {
         {
             self.st.filter_calls += 1;
         }
+        if let Some(pid) = pid
+            && let Some((_, held)) = &pre_recv
+            && let Some(p) = self.ex[e].get_process(pid)
+            && p.select_state.is_none()
+            && p.result.is_none()
+            && p.stack.last() != Some(held)
+        {
+            self.st.preempted += 1;
+        }
         if self.trace.is_some() {
             let mut o = String::new();
             match pid {
@@ -901,11 +939,12 @@ struct Case {
     repl: Vec<(String, Vec<usize>)>,
     trace: bool,
     max_ops: usize,
+    clock: u64, // virtual milliseconds added after every scheduler tick (0: time moves only when idle)
 }
 
 fn parse_case(line: &str) -> Case {
     let s = sexp::parse(line);
-    let mut c = Case { src: vec![], workers: 1, quantum: 1, persistent: false, sched: vec![0], repl: vec![], trace: false, max_ops: 6000 };
+    let mut c = Case { src: vec![], workers: 1, quantum: 1, persistent: false, sched: vec![0], repl: vec![], trace: false, max_ops: 6000, clock: 0 };
     for it in s.args() {
         match it.head() {
             "src" => c.src.push(it.args()[0].atom().to_string()),
@@ -915,6 +954,7 @@ fn parse_case(line: &str) -> Case {
             "sched" => c.sched = it.args().iter().map(|x| x.usize()).collect(),
             "trace" => c.trace = it.args()[0].usize() != 0,
             "maxops" => c.max_ops = it.args()[0].usize(),
+            "clock" => c.clock = it.args()[0].usize() as u64,
             "repl" => {
                 for r in it.args() {
                     c.repl.push((r.head().to_string(), r.args().iter().map(|x| x.usize()).collect()));
@@ -931,7 +971,7 @@ fn parse_case(line: &str) -> Case {
 
 fn stats_sexp(st: &Stats, extra: &str) -> String {
     format!(
-        "(stats (ops {}) (steps {}) (instructions {}) (processes {}) (transfers {}) (cross {}) (shared {}) (reused {}) (reclaimed {}) (selects {}) (filters {}) (slots {}) (orphans {}) (orphans-spawn {}) (f9 {}) (resover {}) (repl {}){})",
+        "(stats (ops {}) (steps {}) (instructions {}) (processes {}) (transfers {}) (cross {}) (shared {}) (reused {}) (reclaimed {}) (selects {}) (filters {}) (preempted {}) (slots {}) (orphans {}) (orphans-spawn {}) (f9 {}) (resover {}) (repl {}){})",
         st.ops,
         st.steps,
         st.instructions,
@@ -943,6 +983,7 @@ fn stats_sexp(st: &Stats, extra: &str) -> String {
         st.reclaimed,
         st.select_steps,
         st.filter_calls,
+        st.preempted,
         st.max_slots,
         st.orphan_slots,
         st.orphan_spawn,
@@ -991,6 +1032,7 @@ fn run_direct(c: &Case) -> String {
     let sched = c.sched.clone();
     let repl = c.repl.clone();
     let max_ops = c.max_ops;
+    let clock = c.clock;
     let mut status = String::from("ok");
     let mut detail = String::new();
     let r = guarded(|| -> Result<(), String> {
@@ -1034,6 +1076,7 @@ fn run_direct(c: &Case) -> String {
             } else {
                 sim.step(pick as usize)?;
             }
+            sim.now += clock;
         }
         // REPL-style operations on the sleeping persistent process (worker.rs get_result 628 /
         // compact_locals 733), then one more step so that queued slots are reclaimed
